@@ -548,14 +548,13 @@ def gen_saturated(rng, idx):
         va, vc = rec_reg(o, 1, [1, 2]), rec_reg(o, 1, [1, 3])
     else:
         va, vc = rec_txs(o, [1, 2]), rec_txs(o, [1, 3])
+    ops.append({"op": "replicate", "node": 0})
+    ops.append({"op": "run_replicates"})             # node 0's list saturates node 1's fetcher; no fetch is delivered yet
+    ops.append(seed(0, va))                          # node 0 now holds its version (so it will not fetch node 2's)
     ops.append(seed(2, vc))
     ops.append(seed(2, rec_chunk(idx * 100 + 50)))
-    ops.append({"op": "replicate", "node": 0})
-    ops.append({"op": "deliver", "i": 0})            # node 0's list reaches node 1 (the first candidate may be node 2: then harmless)
-    ops.append({"op": "deliver", "i": 0})
     ops.append({"op": "replicate", "node": 2})
-    ops.append({"op": "run_replicates"})             # every pending list is delivered, no fetch yet
-    ops.append(seed(0, va))
+    ops.append({"op": "run_replicates"})             # node 2's list: node 1 can only queue it
     ops.append({"op": "advert", "to": 1, "holder": 0, "keys": [[va["key"], {"ncb": 7}]]})
     ops.append({"op": "run_fetch_of", "key": va["key"]})
     ops.append({"op": "replicate", "node": 0})
